@@ -17,7 +17,13 @@
  *   picq I                  same comparison without the hash (used where the model cannot predict the
  *                           picture but the property demands equality) -> picq I eq | picq I DIFF ...
  *   sfb I                   fnv of the pixel values of the client's scaled framebuffer -> sfb I <fnv>
- *   ptr I X Y               PointerEvent (mask 0)  -> ptr I MX MY  (as seen by ptrAddEvent)
+ *   ptr I X Y [MASK]        PointerEvent -> ptr I K m,x,y ...   (every ptrAddEvent call it caused, in order:
+ *                           a flushed coalesced position first, then the event itself; K = 0 when the
+ *                           motion was coalesced (deferPtrUpdateTime > 0, unchanged mask) or ignored)
+ *   defer MS                screen->deferPtrUpdateTime = MS; MS = 0 also flushes (virtual time) what is
+ *                           coalesced -> defer MS K id:m,x,y ...  (sorted by client id)
+ *   ptrflush                advance the virtual clock past the defer time, run the event loop
+ *                           -> ptrflush K id:m,x,y ...
  *   leave I                 close the connection, reap -> ok
  *   corr FW FH TW TH X Y W H   rfbScaledCorrection(from FWxFH, to TWxTH)      -> corr x y w h
  *   sx FW TW X / sy FH TH Y    ScaleX / ScaleY                                -> sx r
@@ -30,6 +36,20 @@
  */
 #include "sess.h"
 #include <rfb/rfbregion.h>
+#include <time.h>
+#include <sys/time.h>
+
+/* virtual clock: the library's gettimeofday() is real time plus an offset the harness advances
+   (deterministic flush of coalesced pointer motion) */
+static long long vclock_off_us = 0;
+int gettimeofday(struct timeval *tv, void *tz) {
+  struct timespec ts; long long us;
+  (void)tz;
+  clock_gettime(CLOCK_REALTIME, &ts);
+  us = (long long)ts.tv_sec * 1000000LL + ts.tv_nsec / 1000 + vclock_off_us;
+  if (tv) { tv->tv_sec = us / 1000000LL; tv->tv_usec = us % 1000000LL; }
+  return 0;
+}
 
 extern int ScaleX(rfbScreenInfoPtr from, rfbScreenInfoPtr to, int x);
 extern int ScaleY(rfbScreenInfoPtr from, rfbScreenInfoPtr to, int y);
@@ -55,14 +75,30 @@ typedef struct {
 static hcl cls[MAXC];
 static rfbScreenInfoPtr scr;
 static int SW, SH, BPP /* bytes */, MAPPED;
-static int lastPtr[3], ptrSeen;
-
-static void on_ptr(int mask, int x, int y, rfbClientPtr cl) { lastPtr[0] = x; lastPtr[1] = y; lastPtr[2] = mask; ptrSeen++; }
+#define MAXPE 64
+static int pe[MAXPE][4], npe;   /* ptrAddEvent log of the current op: client id, mask, x, y */
 
 static hcl *of_client(rfbClientPtr cl) {
   int i;
   for (i = 0; i < MAXC; i++) if (cls[i].used && cls[i].c.cl == cl) return &cls[i];
   return NULL;
+}
+static void on_ptr(int mask, int x, int y, rfbClientPtr cl) {
+  hcl *h = of_client(cl);
+  if (npe < MAXPE) { pe[npe][0] = h ? (int)(h - cls) : -1; pe[npe][1] = mask; pe[npe][2] = x; pe[npe][3] = y; npe++; }
+}
+static void print_pe_sorted(void) {
+  int id, k;
+  printf(" %d", npe);
+  for (id = -1; id < MAXC; id++) for (k = 0; k < npe; k++)
+    if (pe[k][0] == id) printf(" %d:%d,%d,%d", id, pe[k][1], pe[k][2], pe[k][3]);
+  putchar('\n');
+}
+static void pump_all(void);
+static void timer_flush(void) {
+  pump_all();                                   /* makes sure startPtrDeferring is armed */
+  vclock_off_us += ((long long)scr->deferPtrUpdateTime + 1000) * 1000LL;
+  pump_all();
 }
 static void hook(rfbClientPtr cl, sraRegionPtr upd, sraRegionPtr cpy, int dx, int dy) {
   hcl *h = of_client(cl); sraRectangleIterator *it; sraRect r;
@@ -166,6 +202,7 @@ static void pump_all(void) {
 }
 static void begin_op(void) {
   int i; for (i = 0; i < MAXC; i++) { cls[i].nrect = cls[i].nhook = 0; cls[i].told = 0; cls[i].gotnfs = 0; }
+  npe = 0;
 }
 static int is_live(int i) {
   return i >= 0 && i < MAXC && cls[i].used && cls[i].live && cls[i].c.cl && cls[i].c.cl->sock != RFB_INVALID_SOCKET;
@@ -315,14 +352,29 @@ int main(void) {
       for (Y = 0; Y < s->height; Y++) for (X = 0; X < s->width; X++)
         hs = fnv_add(hs, getpix(s->frameBuffer, s->paddedWidthInBytes, X, Y), BPP);
       printf("sfb %d %016llx\n", i, (unsigned long long)hs);
-    } else if (!strcmp(tok[0], "ptr") && n == 4) {
-      int i = atoi(tok[1]), x = atoi(tok[2]), y = atoi(tok[3]); unsigned char m[6]; int before = ptrSeen;
+    } else if (!strcmp(tok[0], "ptr") && (n == 4 || n == 5)) {
+      int i = atoi(tok[1]), x = atoi(tok[2]), y = atoi(tok[3]), mask = n == 5 ? atoi(tok[4]) & 255 : 0, k; unsigned char m[6];
       if (!is_live(i)) { puts("bad-op"); continue; }
-      m[0] = 5; m[1] = 0; m[2] = x >> 8; m[3] = x; m[4] = y >> 8; m[5] = y;
+      m[0] = 5; m[1] = (unsigned char)mask; m[2] = x >> 8; m[3] = x; m[4] = y >> 8; m[5] = y;
       vh_send(&cls[i].c, m, 6);
       pump_all();
-      if (ptrSeen == before + 1) printf("ptr %d %d %d\n", i, lastPtr[0], lastPtr[1]);
-      else printf("ptr %d none(%d)\n", i, ptrSeen - before);
+      printf("ptr %d %d", i, npe);
+      for (k = 0; k < npe; k++) {
+        printf(" %d,%d,%d", pe[k][1], pe[k][2], pe[k][3]);
+        if (pe[k][0] != i) printf("@%d", pe[k][0]);     /* an event attributed to another client */
+      }
+      putchar('\n');
+    } else if (!strcmp(tok[0], "defer") && n == 2) {
+      int ms = atoi(tok[1]);
+      if (ms < 0 || ms > 10000000) { puts("bad-op"); continue; }
+      if (ms == 0) timer_flush();               /* nothing may stay coalesced without a timer */
+      scr->deferPtrUpdateTime = ms;
+      printf("defer %d", ms);
+      print_pe_sorted();
+    } else if (!strcmp(tok[0], "ptrflush") && n == 1) {
+      timer_flush();
+      printf("ptrflush");
+      print_pe_sorted();
     } else if (!strcmp(tok[0], "leave") && n == 2) {
       int i = atoi(tok[1]);
       if (!is_live(i)) { puts("bad-op"); continue; }
